@@ -183,7 +183,7 @@ REVERTS = [
     ("C10", "fix: spinCustom deformed"), ("C10", "fix: SP force/Jacobian queries"), ("C10", "fix: the two SP forward-kinematics"),
     ("C10", "fix: SP.FK kept"), ("C16", "fix: progressBar divided"),
     ("C14", "fix: tm.gPos() returned"), ("C14", "fix: all default-constructed Screws"),
-    ("C11", "fix: SP body-frame statics"), ("C06", "fix: numericalJacobian differentiates"), ("C14", "fix: adjustRotationToMidpoint(mode=1)"), ("C14", "fix: transformWrenchFrame converted"), ("C05", "fix: jacobianEETrans zeroed"), ("C03", "fix: MatrixLog3 amplified"), ("C10", "fix: spinCustom left the joint-deflection"), ("C07", "fix: IKinSpaceConstrained accepted a start"), ("C01", "fix: MatrixLog3 half-turn formulas lost"), ("C08", "fix: inverseDynamicsEMR / forwardDynamics raised"),
+    ("C11", "fix: SP body-frame statics"), ("C06", "fix: numericalJacobian differentiates"), ("C14", "fix: adjustRotationToMidpoint(mode=1)"), ("C14", "fix: transformWrenchFrame converted"), ("C05", "fix: jacobianEETrans zeroed"), ("C03", "fix: MatrixLog3 amplified"), ("C10", "fix: spinCustom left the joint-deflection"), ("C07", "fix: IKinSpaceConstrained accepted a start"), ("C01", "fix: MatrixLog3 half-turn formulas lost"), ("C08", "fix: inverseDynamicsEMR / forwardDynamics raised"), ("C09", "fix: Newton FK of the Stewart platform used Euler-angle"),
 ]
 # not in the list: "fix: Arm frame bookkeeping" - the 3e-7 rad it repaired came from the logarithm's half-turn conditioning, which the later
 # MatrixLog3 repairs removed at the root: reverse-applying it no longer changes any pose (an equivalent mutant);
